@@ -417,6 +417,17 @@ func (w *Worker) mergeGroup(g []*canon, base int, basePC int, mark int) (res Out
 	if len(sites) > 0 {
 		st.sites = sites
 	}
+	for _, c := range g {
+		if len(c.out.st.fs) != len(src.fs) {
+			panic(mergeFail{})
+		}
+		for k, v := range c.out.st.fs {
+			if src.fs[k].obj != v.obj || !identical(src.fs[k].name, v.name) {
+				panic(mergeFail{})
+			}
+		}
+	}
+	st.fs, st.fsNoDir, st.tmpCount = src.fs, src.fsNoDir, src.tmpCount
 	st.trail = src.trail
 	st.obs = obs
 	st.dirty = append(src.dirty[:mark:mark], last.modified...)
